@@ -116,7 +116,7 @@ func main() {
 	}
 
 	curRun := -1
-	chansim.StartWatchdog(10*time.Second, func() string { return fmt.Sprintf("prop=%s seed=%d run=%d", *prop, *seed, curRun) })
+	chansim.StartWatchdog(60*time.Second, func() string { return fmt.Sprintf("prop=%s seed=%d run=%d", *prop, *seed, curRun) })
 
 	st := &Stats{Prop: *prop, Seed: *seed, From: *from, To: *to, PerScenario: map[string]int{}, Probes: map[string]int{}, FirstFail: -1}
 	start := time.Now()
@@ -232,7 +232,7 @@ func doReplay(path string) int {
 		fmt.Fprintln(os.Stderr, err)
 		return 2
 	}
-	chansim.StartWatchdog(10*time.Second, func() string { return "replay " + path })
+	chansim.StartWatchdog(60*time.Second, func() string { return "replay " + path })
 	o := runSet(rf.Property, tape.ReplaySet(0, rf.Tape), true)
 	fmt.Printf("scenario=%s config=%v\n", o.Scenario, o.Decoded)
 	for _, e := range o.Trace {
